@@ -276,7 +276,7 @@ func scnSubmitVsProposal(seed uint64) (*c14Scenario, error) {
 		return nil, err
 	}
 	s := &c14Scenario{Name: "submit-answer||poll-new-proposal", W: w, V: v, Snap: v.Mem.Snapshot(), Board: w.Board.Len(), Closer: ce.Close}
-	s.API = func() error { return v.Svc.ProcessOperation(world.OpToDTO(res)) }
+	s.API = func() error { return viaREST(v).Submit(mkReq(res)) }
 	s.Poll = func() error { _, err := v.PollStep(0); return err }
 	return s, nil
 }
@@ -303,7 +303,7 @@ func scnApproveVsOtherRound(seed uint64) (*c14Scenario, error) {
 	}
 	id := ops[0].ID
 	s := &c14Scenario{Name: "approve-participation||poll-other-rounds-proposal", W: w, V: v, Snap: v.Mem.Snapshot(), Board: w.Board.Len(), Closer: w.Close}
-	s.API = func() error { return v.Svc.ApproveParticipation(&dto.OperationIdDTO{OperationID: id}) }
+	s.API = func() error { return viaREST(v).Approve(id) }
 	s.Poll = func() error { _, err := v.PollStep(0); return err }
 	return s, nil
 }
@@ -364,7 +364,7 @@ func scnReinitFinishVsOtherRound(seed uint64) (*c14Scenario, error) {
 		return nil, err
 	}
 	s := &c14Scenario{Name: "finish-reinit||poll-other-rounds-proposal", W: w, V: v, Snap: v.Mem.Snapshot(), Board: w.Board.Len(), Closer: closer}
-	s.API = func() error { return v.Svc.ProcessOperation(world.OpToDTO(res)) }
+	s.API = func() error { return viaREST(v).Submit(mkReq(res)) }
 	s.Poll = func() error { _, err := v.PollStep(0); return err }
 	return s, nil
 }
@@ -413,7 +413,7 @@ func scnResetVsPoll(seed uint64) (*c14Scenario, error) {
 	}
 	s := &c14Scenario{Name: "reset-state||poll-two-messages", W: w, V: v, Snap: v.Mem.Snapshot(), Board: w.Board.Len(), Closer: w.Close}
 	s.API = func() error {
-		_, err := v.FSM.ResetFSMState(&dto.ResetStateDTO{NewStateDBDSN: "fresh"})
+		_, err := viaREST(v).Raw("POST", "/resetState", nil, mkReq(map[string]interface{}{"new_state_dbdsn": "fresh"}))
 		return err
 	}
 	s.Poll = func() error { _, err := v.PollStep(0); return err }
@@ -428,7 +428,7 @@ func scnSaveOffsetVsPoll(seed uint64) (*c14Scenario, error) {
 	}
 	v := s.V
 	s.Name = "save-offset-0||poll-two-messages"
-	s.API = func() error { return v.Svc.SaveOffset(&dto.StateOffsetDTO{Offset: 0}) }
+	s.API = func() error { return viaREST(v).SaveOffset(0) }
 	return s, nil
 }
 
@@ -476,7 +476,7 @@ func scnSubmitVsSameRound(seed uint64) (*c14Scenario, error) {
 		}
 	}
 	s := &c14Scenario{Name: "submit-commit||poll-two-commits-of-same-round", W: w, V: v, Snap: v.Mem.Snapshot(), Board: w.Board.Len(), Closer: w.Close}
-	s.API = func() error { return v.Svc.ProcessOperation(world.OpToDTO(res)) }
+	s.API = func() error { return viaREST(v).Submit(mkReq(res)) }
 	s.Poll = func() error { _, err := v.PollStep(0); return err }
 	return s, nil
 }
@@ -516,10 +516,20 @@ func scnSubmitVsSignatures(seed uint64) (*c14Scenario, error) {
 		return nil, err
 	}
 	s := &c14Scenario{Name: "submit-late-answer||poll-answers-and-signatures", W: w, V: v, Snap: v.Mem.Snapshot(), Board: w.Board.Len(), Closer: ce.Close}
-	s.API = func() error { return v.Svc.ProcessOperation(world.OpToDTO(res)) }
+	s.API = func() error { return viaREST(v).Submit(mkReq(res)) }
 	s.Poll = func() error { _, err := v.PollStep(int(v.Offset()) + 3); return err }
 	return s, nil
 }
 
 // raceSoak is filled in by c14race.go
 var raceSoak = func(c *Ctx) {}
+
+// viaREST: the request activity of every scenario enters through the repository's REST layer (router,
+// binding, handler), as the property says ("through the local API"), not by calling the node directly.
+func viaREST(v *world.Node) *world.HTTPOp {
+	a := apiFor(v)
+	if a == nil {
+		panic("REST API cannot be built for " + v.Name)
+	}
+	return a
+}
